@@ -1270,6 +1270,16 @@ class Lo(Expr):
         return relocate_lo(value)
 
 
+# an expression "depends on labels" if it can't be evaluated from the constants alone
+# the value of such an expression isn't final until all labels have settled
+def depends_on_labels(expr, position, constants, line):
+    try:
+        expr.eval(position, constants, line)
+    except AssemblerError:
+        return True
+    return False
+
+
 # base class for assembly "things"
 class Item(abc.ABC):
 
@@ -2860,9 +2870,17 @@ def transform_compressible(items, constants, labels):
             new_items.append(item)
             continue
 
+        # label positions aren't final yet (they move as later items shrink) so an
+        # immediate that depends on them may still change after this decision:
+        # only pc-relative jumps / branches are safe (their offsets can only shrink)
+        imm = getattr(item, 'imm', None)
+        unsettled = isinstance(imm, Expr) and depends_on_labels(imm, position, constants, item.line)
+
         # check if any set of criteria is all true for this item
         compressed = None
         for name, preds in criteria.items():
+            if unsettled and name not in ['c.jal', 'c.j', 'c.beqz', 'c.bnez']:
+                continue
             if all(pred(item, position, env) for pred in preds):
                 compressed = name
                 break
